@@ -64,6 +64,8 @@ PROFILES = {
             "include_edge_bins": False, "edge_bin_rate": None, "edge_bin_percent": None}}}),
         "supp": dict(kwargs={"settings": {"seed": 9, "supplemental_time_series_columns": ["extra_ts"]}}, needs_extra=True),
         "suppcat": dict(kwargs={"settings": {"seed": 9, "supplemental_categorical_columns": ["extra_cat"]}}, needs_extra=True),
+        "randsel": dict(kwargs={"settings": {"seed": 4, "elasticnet": {"selection": "random"}}}),   # seeded random coordinate order
+        "shared_randsel": dict(kwargs={"settings": "SHARED_RANDSEL"}),  # ... with ONE settings object for every model
         "obj": dict(kwargs={"settings": "OBJ"}),  # a settings object instead of a dict
         "shared_obj": dict(kwargs={"settings": "SHARED_OBJ"}),  # ONE settings object for every model of this profile
     },
@@ -89,6 +91,12 @@ def make_model(em, fam: str, profile: str):
         if "hourly" not in _SHARED:
             _SHARED["hourly"] = hs.BaseHourlySettings(seed=12)
         kw["settings"] = _SHARED["hourly"]     # the very same object for every model of this profile in the process
+    elif kw.get("settings") == "SHARED_RANDSEL":
+        from opendsm.eemeter.models.hourly import settings as hs
+
+        if "hourly_randsel" not in _SHARED:
+            _SHARED["hourly_randsel"] = hs.BaseHourlySettings(seed=13, elasticnet={"selection": "random"})
+        kw["settings"] = _SHARED["hourly_randsel"]
     elif kw.get("settings") == "SHARED_DICT":
         if "daily" not in _SHARED:
             _SHARED["daily"] = {"uncertainty_alpha": 0.2, "season": dict(_ALT_SEASON)}
